@@ -47,8 +47,16 @@ def rule_r1(ctx):
     ok = len(rs) == 1 and call_name(rs[0].exc) == "SyntaxError" and isinstance(parent(rs[0]), ast.If) and src(parent(rs[0]).test) == "cursor < len(text) or not start"
     ctx.check(ok, "R1-rejection-total", c, "SyntaxError iff incomplete or no finished start item", site(f), "rejection condition changed", "cursor < len(text) or not start")
     pp = ctx.repo.func(PARSER, "EarleyParser.parse_prefix", "C10.R1")
-    ok = any(isinstance(n, ast.ListComp) and src(n) == "[st for st in col.states if st.name == self.start_symbol()]" for n in ast.walk(pp)) and any(isinstance(n, ast.For) and src(n.iter) == "reversed(self.table)" for n in walk_local(pp))
-    ctx.check(ok, "R1-rejection-total", f"{PARSER}:EarleyParser.parse_prefix", "cursor = last column holding a start-symbol item", site(pp), "longest-prefix search changed", "reversed table scan for start-symbol items")
+    comps = [n for n in ast.walk(pp) if isinstance(n, ast.ListComp) and len(n.generators) == 1 and src(n.generators[0].iter) == "col.states" and src(n.elt) == src(n.generators[0].target)]
+    scan = any(isinstance(n, ast.For) and src(n.iter) == "reversed(self.table)" for n in walk_local(pp))
+    if len(comps) != 1 or not scan:
+        raise Unrecognised("C10.R1", f"{PARSER}:EarleyParser.parse_prefix", "selection of the start-symbol items (reversed table scan) not found")
+    conds = " and ".join(" ".join(src(i).split()) for i in comps[0].generators[0].ifs)
+    v = src(comps[0].generators[0].target)
+    ctx.check(f"{v}.name == self.start_symbol()" in conds, "R1-rejection-total", f"{PARSER}:EarleyParser.parse_prefix", "only items of the start symbol are candidates", site(comps[0]), f"filter is `{conds}`", "st.name == self.start_symbol()")
+    ctx.check(f"{v}.s_col.index == 0" in conds, "R1-whole-span", f"{PARSER}:EarleyParser.parse_prefix", "start items must begin at position 0", site(comps[0]),
+              f"any item of the start symbol in the last column is accepted (`{conds}`): when the start symbol is reachable from itself (<start> ::= \"a\"<B>, <B> ::= <start> | \"\") there are finished "
+              "start items for suffixes only, and parse(\"aa\") returns the tree of \"a\" - the yielded tree's string is not the input", "st.s_col.index == 0")
     g = ctx.repo.func(PARSER, "Parser.parse", "C10.R1")
     for r in [n for n in walk_local(g) if isinstance(n, ast.Return)]:
         ctx.check(has_fact(facts(r), "cursor < len(text)", False), "R1-rejection-total", f"{PARSER}:Parser.parse", "returns only if the whole text was consumed", site(r), "returns trees for a proper prefix", "dominated")
@@ -103,6 +111,12 @@ def rule_r5(ctx):
     fix = inner is not None and any(src(d) == "fixpoint" for d in inner.decorator_list)
     body_ok = inner is not None and any(isinstance(n, ast.If) and src(n.test) == "nullable_expr(expr, nullables)" for n in ast.walk(inner)) and any(isinstance(n, ast.AugAssign) and src(n.target) == "nullables" and src(n.value) == "{A}" for n in ast.walk(inner))
     start = any(isinstance(r, ast.Return) and src(r.value).endswith("({EPSILON})") for r in walk_local(f))
+    single_pass = inner is None and not any(isinstance(n, ast.While) for n in ast.walk(f)) and any(isinstance(n, ast.For) and "rules(grammar)" in src(n.iter) or (isinstance(n, ast.For) and src(n.iter) == "productions") for n in walk_local(f))
+    if single_pass:
+        ctx.viol("R5-nullable-fixpoint", c, "least fixed point over all productions", site(f),
+                 "nullable() makes a single pass over the productions: a nonterminal whose nullable parts are declared AFTER it (<a> ::= <b> before <b> ::= \"\") is not recognised as nullable, "
+                 "the prediction shortcut for nullable nonterminals is skipped and members of the language are rejected with SyntaxError")
+        return
     if not (fix and body_ok and start):
         raise Unrecognised("C10.R5", c, "nullable() is no longer the recognised fixed-point iteration over all productions; its correctness (e.g. productions that repeat a nullable symbol) must be re-established")
     ctx.ok("R5-nullable-fixpoint", c, "least fixed point over all productions", site(f), "fixpoint iteration of nullable_expr")
